@@ -404,6 +404,11 @@ def canon(t, depth=0):
             return canon(t[2][0], d)       # a borrowed view of the same value: terms are reference-free
         if sn in ("Option::copied", "Iterator::copied"):
             sn = sn.replace("copied", "cloned")     # for a `Copy` type the two are one operation
+        if sn in ("Option::map_or", "Result::map_or") and len(t[2]) == 3:
+            # `x.map_or(d, f)` is `x.map(f).unwrap_or(d)`
+            return "%s::unwrap_or(%s::map(%s, %s), %s)" % (sn.split("::")[0], sn.split("::")[0], canon(t[2][0], d), canon(t[2][2], d), canon(t[2][1], d))
+        if sn == "Option::is_some_and" and len(t[2]) == 2:
+            return "Option::unwrap_or(Option::map(%s, %s), 0)" % (canon(t[2][0], d), canon(t[2][1], d))    # `x.is_some_and(f)` is `x.map(f).unwrap_or(false)`
         if sn == "Option::unwrap_or" and len(t[2]) == 2:
             a0 = strip(t[2][0])
             if a0[0] == "call" and isinstance(a0[1], str) and short(a0[1]) in ("Option::copied", "Option::cloned") and a0[2]:
